@@ -197,6 +197,56 @@ type hdrCase struct {
 // framing and role; ctx: its context is done from the start; ok: it got its header out.
 var priors = []string{"wf1", "wf2", "wfb", "wfx", "ctx", "ok"}
 
+// sharedPriors (round E): histories of the NEGOTIATOR VALUE the session under test is given.  A
+// Negotiator "may be shared by many sessions" (negotiator.go), so nothing a session is told or
+// tells may depend on which sessions the value served before.  The value first serves one (nk, nr,
+// nf) or two (nkk) OTHER sessions: nk: the other kind (c2s <-> s2s), same role, success; nr: the
+// other kind and the other role; nf: the other kind, its first write fails; nkk: the other kind,
+// then the own kind, then the session under test; nsame: the same kind (control).
+var sharedPriors = []string{"nk", "nr", "nf", "nkk", "nsame"}
+
+func isSharedPrior(k string) bool { return strings.HasPrefix(k, "n") }
+
+// runSharedPrior runs the history `kind` on the negotiator value neg.
+func runSharedPrior(kind string, c hdrCase, neg xmpp.Negotiator) {
+	type other struct{ s2s, recv, fail bool }
+	var hist []other
+	switch kind {
+	case "nk":
+		hist = []other{{!c.s2s, c.recv, false}}
+	case "nr":
+		hist = []other{{!c.s2s, !c.recv, false}}
+	case "nf":
+		hist = []other{{!c.s2s, c.recv, true}}
+	case "nkk":
+		hist = []other{{!c.s2s, c.recv, false}, {c.s2s, !c.recv, false}}
+	case "nsame":
+		hist = []other{{c.s2s, c.recv, false}}
+	}
+	loc, orig := jid.MustParse(victimLoc), jid.MustParse(victimOrig)
+	for _, o := range hist {
+		var st xmpp.SessionState
+		xmlns := "jabber:client"
+		if o.s2s {
+			st |= xmpp.S2S
+			xmlns = "jabber:server"
+		}
+		var conn *nc.Conn
+		if o.recv {
+			st |= xmpp.Received
+			conn = nc.NewConn(nc.S(peerHeader(c.ws, xmlns, "", orig.String(), loc.String())))
+		} else {
+			conn = nc.NewConn()
+		}
+		if o.fail {
+			conn.FailWriteCall = 1
+		}
+		_ = common.Recover(func() {
+			_, _ = xmpp.NewSession(context.Background(), loc, orig, conn, st, neg)
+		})
+	}
+}
+
 const (
 	victimLoc  = "victim.example"
 	victimOrig = "secret@victim.example/s3cr3t"
@@ -261,16 +311,22 @@ func runHdr(r *common.Run, c hdrCase, class string) {
 	}
 	var conn *nc.Conn
 	var to, from string
-	runPrior(c.prior, c)
+	var sess *xmpp.Session
+	neg := negotiator(c.ws, c.lang)
+	if isSharedPrior(c.prior) {
+		runSharedPrior(c.prior, c, neg)
+	} else {
+		runPrior(c.prior, c)
+	}
 	p := common.Recover(func() {
 		if c.recv {
 			// the peer (initiator) announces from=orig to=loc; we answer to=orig from=loc
 			conn = nc.NewConn(nc.S(peerHeader(c.ws, xmlns, "", orig.String(), loc.String())))
-			_, _ = xmpp.NewSession(context.Background(), loc, orig, conn, st|xmpp.Received, negotiator(c.ws, c.lang))
+			sess, _ = xmpp.NewSession(context.Background(), loc, orig, conn, st|xmpp.Received, neg)
 			to, from = orig.String(), loc.String()
 		} else {
 			conn = nc.NewConn()
-			_, _ = xmpp.NewSession(context.Background(), loc, orig, conn, st, negotiator(c.ws, c.lang))
+			sess, _ = xmpp.NewSession(context.Background(), loc, orig, conn, st, neg)
 			to, from = loc.String(), orig.String()
 		}
 	})
@@ -366,6 +422,15 @@ func runHdr(r *common.Run, c hdrCase, class string) {
 		check("xmlns", "", "xmlns", xmlns)
 		if got.Name != (xml.Name{Space: nsStream, Local: "stream"}) {
 			r.Fail("header-faithful", "name", lines, "not stream:stream")
+		}
+	}
+	// the session's own record of what it sent (Session.Out(), a C12 observation point) names the
+	// content namespace of ITS stream kind and the id it printed
+	if sess != nil {
+		if o := sess.Out(); o.XMLNS != xmlns {
+			r.Fail("header-faithful", "out-info-xmlns", lines, fmt.Sprintf("Session.Out().XMLNS = %q on a stream whose content namespace is %q", o.XMLNS, xmlns))
+		} else if o.ID != id {
+			r.Fail("header-faithful", "out-info-id", lines, fmt.Sprintf("Session.Out().ID = %q, the header says %q", o.ID, id))
 		}
 	}
 	if len(got.Attr) != len(uniqueAttrs(got.Attr)) {
@@ -1014,7 +1079,96 @@ func canonJ(raw string) string {
 
 var iqIDRe = regexp.MustCompile(`<iq[^>]*\sid="([^"]*)"`)
 
+// decoy (round E): an attribute of the <iq> start element that has the local name of one of the
+// stanza's own attributes but lives in a namespace (prefix p: bound to a foreign namespace, the
+// reserved xml: prefix, or a prefix bound to the stanza's own content namespace), placed before or
+// after the plain attributes.  Such an attribute is a different attribute (Namespaces in XML 6.2): a
+// request / reply with decoys must be treated exactly like the one without.
+type decoy struct {
+	prefix, local, value string
+	after                bool
+}
+
+var decoyValues = map[string][]string{
+	"id": {"evil"}, "type": {"error", "get"}, "to": {"decoy.example", "a@@b"}, "from": {"decoy@decoy.example/d", "a@@b"},
+}
+
+func allDecoys() []*decoy {
+	var out []*decoy
+	for _, pf := range []string{"p", "xml", "own"} {
+		for _, lo := range []string{"id", "type", "to", "from"} {
+			for _, v := range decoyValues[lo] {
+				for _, after := range []bool{false, true} {
+					out = append(out, &decoy{pf, lo, v, after})
+				}
+			}
+		}
+	}
+	return out
+}
+
+// render returns the text to put before and after the plain attributes
+func (d *decoy) render(contentNS string) (pre, post string) {
+	if d == nil {
+		return "", ""
+	}
+	var t string
+	switch d.prefix {
+	case "p":
+		t = " xmlns:p='urn:example:p' p:" + d.local + "='" + nc.Esc(d.value) + "'"
+	case "xml":
+		t = " xml:" + d.local + "='" + nc.Esc(d.value) + "'"
+	default:
+		t = " xmlns:own='" + contentNS + "' own:" + d.local + "='" + nc.Esc(d.value) + "'"
+	}
+	if d.after {
+		return "", t
+	}
+	return t, ""
+}
+
+// withDecoy inserts the decoy into the start tag of an <iq ...> document (attribute values are
+// escaped, so the first '>' ends the start tag)
+func withDecoy(doc []byte, d *decoy, contentNS string) []byte {
+	if d == nil || !bytes.HasPrefix(doc, []byte("<iq ")) {
+		return doc
+	}
+	pre, post := d.render(contentNS)
+	end := bytes.IndexByte(doc, '>')
+	if end < 0 {
+		return doc
+	}
+	if doc[end-1] == '/' {
+		end--
+	}
+	out := append([]byte("<iq"+pre), doc[3:end]...)
+	out = append(out, post...)
+	return append(out, doc[end:]...)
+}
+
+// startAttrs renders the attributes of the first start element of doc as the model reads them:
+// space=local=value (hex), in document order; the dynamic request id is written ID.
+func startAttrs(doc []byte, id string) string {
+	t, err := firstStart(doc)
+	if err != nil {
+		return "!"
+	}
+	var as []string
+	for _, a := range t.Attr {
+		v := a.Value
+		if id != "" {
+			v = strings.Replace(v, id, "ID", -1)
+		}
+		as = append(as, hx(a.Name.Space)+"="+hx(a.Name.Local)+"="+hx(v))
+	}
+	return common.Join(as, ";")
+}
+
 func runBindClient(r *common.Run, local, reply, a, b string, class string) {
+	runBindClientD(r, local, reply, a, b, nil, class)
+}
+
+func runBindClientD(r *common.Run, local, reply, a, b string, dec *decoy, class string) {
 	lj, err := jid.Parse(local)
 	if err != nil {
 		return
@@ -1056,10 +1210,19 @@ func runBindClient(r *common.Run, local, reply, a, b string, class string) {
 		}
 		return nil
 	}
+	var sentReply []byte
+	var sentID string
+	mkD := func(w []byte) []byte {
+		if m := iqIDRe.FindSubmatch(w); m != nil {
+			sentID = string(m[1])
+		}
+		sentReply = withDecoy(mk(w), dec, "jabber:client")
+		return sentReply
+	}
 	conn := nc.NewConn(
 		nc.S(nc.Header("jabber:client", "sid1", domain.String(), lj.String())),
 		nc.S("<stream:features><bind xmlns='"+nsBind+"'/></stream:features>"),
-		nc.Chunk{Dyn: mk},
+		nc.Chunk{Dyn: mkD},
 	)
 	var s *xmpp.Session
 	var serr error
@@ -1071,6 +1234,11 @@ func runBindClient(r *common.Run, local, reply, a, b string, class string) {
 		}
 	})
 	line := fmt.Sprintf("bindc %s %s %s %s %s %s", hx(local), reply, hx(a), hx(b), canonJ(a), canonJ(b))
+	if dec != nil {
+		// the reply's start element as sent: the model reads the stanza's own attributes from it
+		line = fmt.Sprintf("bindca %s %s %s %s %s %s %s:%s:%s:%v %s", hx(local), reply, hx(a), hx(b), canonJ(a), canonJ(b),
+			dec.prefix, dec.local, hx(dec.value), dec.after, startAttrs(sentReply, sentID))
+	}
 	lines := []string{r.Prop + " " + line}
 	if p != "" {
 		r.Line(line, "PANIC")
@@ -1154,6 +1322,10 @@ func runBindServer(r *common.Run, s2s bool, remote, reqid, reqres, cb, a string,
 
 // runBindServerTF: the request additionally carries to / from attributes ("" = absent).
 func runBindServerTF(r *common.Run, s2s bool, remote, reqid, reqres, cb, a, reqTo, reqFrom string, class string) {
+	runBindServerD(r, s2s, remote, reqid, reqres, cb, a, reqTo, reqFrom, nil, class)
+}
+
+func runBindServerD(r *common.Run, s2s bool, remote, reqid, reqres, cb, a, reqTo, reqFrom string, dec *decoy, class string) {
 	rj, err := jid.Parse(remote)
 	if err != nil {
 		return
@@ -1220,6 +1392,7 @@ func runBindServerTF(r *common.Run, s2s bool, remote, reqid, reqres, cb, a, reqT
 		addr += " from='" + nc.Esc(reqFrom) + "'"
 	}
 	req := "<iq type='set' id='" + nc.Esc(reqid) + "'" + addr + ">" + inner + "</iq>"
+	req = string(withDecoy([]byte(req), dec, xmlns))
 	conn := nc.NewConn(nc.S(nc.Header(xmlns, "", rj.String(), domain.String())), nc.S(req))
 	var s *xmpp.Session
 	var serr error
@@ -1240,6 +1413,10 @@ func runBindServerTF(r *common.Run, s2s bool, remote, reqid, reqres, cb, a, reqT
 		return canonJ(raw)
 	}
 	line := fmt.Sprintf("binds %s %s %s %s %s %s %s %s %s", common.B(s2s), hx(remote), hx(reqid), resField, cb, hx(a), cbJid, tf(reqTo), tf(reqFrom))
+	if dec != nil {
+		line = fmt.Sprintf("bindsa %s %s %s %s %s %s %s %s %s %s:%s:%s:%v %s", common.B(s2s), hx(remote), hx(reqid), resField, cb, hx(a), cbJid, tf(reqTo), tf(reqFrom),
+			dec.prefix, dec.local, hx(dec.value), dec.after, startAttrs([]byte(req), ""))
+	}
 	lines := []string{r.Prop + " " + line}
 	if p != "" {
 		r.Line(line, "PANIC")
@@ -1682,7 +1859,7 @@ func Run(r *common.Run) error {
 				}
 				runHdr(r, hdrCase{recv: recv, ws: ws, s2s: s2s, loc: "", orig: ""}, "hdr-noaddr")
 				// ---- the same after each history (a failed / cancelled / successful other session) ----
-				for _, pr := range priors {
+				for _, pr := range append(append([]string{}, priors...), sharedPriors...) {
 					for _, j := range []string{"user@example.net/res", "user@example.net/x'y", "user@example.net/a<b>c"} {
 						runHdr(r, hdrCase{recv: recv, ws: ws, s2s: s2s, loc: "example.net", orig: j, lang: "en", prior: pr}, "hdr-after-"+pr)
 					}
@@ -1692,6 +1869,7 @@ func Run(r *common.Run) error {
 		}
 	}
 	r.Exhaustive = append(r.Exhaustive, "stream header after every history (another session whose 1st / 2nd write fails, whose connection takes 10 bytes, on the other framing and role, cancelled, successful) x role x framing x c2s/s2s")
+	r.Exhaustive = append(r.Exhaustive, "stream header of a session whose Negotiator VALUE served other sessions before (other kind c2s<->s2s, other role, failed write, two sessions, same kind) x role x framing x c2s/s2s")
 	// random resourceparts over a special-character alphabet
 	alpha := []rune("ab'\"&<>;#x/@ =é\t")
 	n := r.Pick(300, 5000)
@@ -1715,7 +1893,8 @@ func Run(r *common.Run) error {
 		}
 		prior := ""
 		if rnd.Chance(1, 4) {
-			prior = priors[rnd.Intn(len(priors))]
+			all := append(append([]string{}, priors...), sharedPriors...)
+			prior = all[rnd.Intn(len(all))]
 		}
 		runHdr(r, hdrCase{recv: rnd.Bool(), ws: rnd.Bool(), s2s: rnd.Bool(), loc: "example.net", orig: j.String(), lang: lang, prior: prior}, "hdr-random")
 	}
@@ -1876,11 +2055,47 @@ func Run(r *common.Run) error {
 			}
 		}
 	}
+	// ---- round E: attributes called id / type / to / from in a namespace, on both sides of bind ----
+	for _, dec := range allDecoys() {
+		for _, l := range []string{"user@example.net/home", "user@example.net"} {
+			for _, rep := range []string{"res", "wrongid", "noid"} {
+				runBindClientD(r, l, rep, "user@example.net/srv-assigned", "", dec, "bindc-decoy")
+			}
+			runBindClientD(r, l, "err", "conflict", "", dec, "bindc-decoy")
+			runBindClientD(r, l, "errempty", "", "", dec, "bindc-decoy")
+			runBindClientD(r, l, "type", "get", "user@example.net/srv-assigned", dec, "bindc-decoy")
+		}
+		for _, s2s := range []bool{false, true} {
+			for _, id := range []string{"real", ""} {
+				for _, cb := range []string{"nil", "echo", "serr"} {
+					a := ""
+					if cb == "serr" {
+						a = "conflict"
+					}
+					runBindServerD(r, s2s, "user@example.net", id, "home", cb, a, "", "", dec, "binds-decoy")
+					runBindServerD(r, s2s, "user@example.net", id, "home", cb, a, "example.net", "user@example.net/old", dec, "binds-decoy")
+				}
+			}
+		}
+	}
+	r.Exhaustive = append(r.Exhaustive, "bind request and bind reply with an attribute named id / type / to / from in a namespace (foreign prefix, xml:, a prefix bound to the stanza's own namespace; valid and invalid address values) before / after the plain attributes x reply class / callback kind x c2s/s2s")
 	r.Exhaustive = append(r.Exhaustive, "every header variant (versions, namespaces, ids, addresses, element names, stream errors, junk prefixes) x role x framing x s2s, single and after a restart; every bind reply class x local address x assigned address; every bind request x callback kind")
 	return nil
 }
 
 var corpus = []string{}
+
+func parseDecoy(x string) *decoy {
+	p := strings.Split(x, ":")
+	if len(p) != 4 {
+		return nil
+	}
+	v, err := unhx(p[2])
+	if err != nil {
+		return nil
+	}
+	return &decoy{p[0], p[1], v, p[3] == "true"}
+}
 
 func replayLine(r *common.Run, l string) error {
 	f := strings.Fields(l)
@@ -1920,6 +2135,29 @@ func replayLine(r *common.Run, l string) error {
 		return nil
 	case f[0] == "bindc" && len(f) == 7:
 		runBindClient(r, un(f[1]), f[2], un(f[3]), un(f[4]), "replay")
+		return nil
+	case f[0] == "bindca" && len(f) == 9:
+		if d := parseDecoy(f[7]); d != nil {
+			runBindClientD(r, un(f[1]), f[2], un(f[3]), un(f[4]), d, "replay")
+		}
+		return nil
+	case f[0] == "bindsa" && len(f) == 12:
+		res := "NONE"
+		if f[4] != "NONE" {
+			res = un(f[4])
+		}
+		tf := func(x string) string {
+			if x == "-" {
+				return ""
+			}
+			if x == "!" {
+				return "a@@b"
+			}
+			return un(x)
+		}
+		if d := parseDecoy(f[10]); d != nil {
+			runBindServerD(r, f[1] == "1", un(f[2]), un(f[3]), res, f[5], un(f[6]), tf(f[8]), tf(f[9]), d, "replay")
+		}
 		return nil
 	case f[0] == "binds" && len(f) == 10:
 		res := "NONE"
